@@ -179,7 +179,9 @@ TWO_CSV = None
 
 
 def two_config_csv(scratch_root):
-    """A CSV with two configurations that differ only in name and pixel aspect ratio."""
+    """A CSV with two configurations: cfg_a = the sample's 'minimal' column; cfg_b = the same
+    with another pixel aspect ratio, several video parameters left to the base format
+    ('default' cells) and an explicit quantisation matrix."""
     global TWO_CSV
     if TWO_CSV is None:
         import csv as _csv
@@ -202,6 +204,10 @@ def two_config_csv(scratch_root):
                 b = "4"
             elif k == "pixel_aspect_ratio_denom":
                 b = "3"
+            elif k in ("source_sampling", "top_field_first", "frame_rate_numer", "frame_rate_denom", "color_primaries_index", "color_matrix_index", "transfer_function_index", "left_offset", "top_offset"):
+                b = "default"
+            elif k == "quantization_matrix":
+                b = "3 1 2 0"
             out.append([k, a, b])
         path = os.path.join(scratch_root, "two_configs.csv")
         with open(path, "w", newline="") as f:
@@ -242,16 +248,18 @@ def run_two_config_worker(i, csv_path, scratch, t):
     t.count("two_config_worker_runs")
 
 
-def run_two_config_serial(csv_path, scratch, t):
+def run_two_config_serial(csv_path, scratch, t, seed=None):
     d = os.path.join(scratch, "ts")
     os.makedirs(d)
     env = dict(os.environ)
     env["PYTHONDONTWRITEBYTECODE"] = "1"
+    if seed is not None:
+        env["PYTHONHASHSEED"] = str(seed)
     r = subprocess.run([sys.executable, os.path.join(mc.VERIF_DIR, "props", "c24_runner.py"), csv_path, "--output", ROOT], cwd=d, env=env, capture_output=True, text=True, timeout=1800)
     if r.returncode != 0:
         t.violation("two-configuration CSV: serial generator exited %d: %s" % (r.returncode, r.stderr[-300:]), {"two_config_serial": True})
         return
-    t.extra = ("serial", None, tree_digest(os.path.join(d, ROOT)))
+    t.extra = ("serial", seed, tree_digest(os.path.join(d, ROOT)))
     t.count("two_config_serial_runs")
 
 
@@ -264,6 +272,8 @@ def _shard(arg):
             run_two_config_worker(payload[0], payload[1], scratch, t)
         elif kind == "two-serial":
             run_two_config_serial(payload, scratch, t)
+        elif kind == "two-serial-seed":
+            run_two_config_serial(payload[0], scratch, t, payload[1])
         if kind == "subset":
             subset, bound, label, cap = payload
             explore_subset(tuple(subset), bound, scratch, t, label, cap)
@@ -384,8 +394,9 @@ def run(ctx):
             shards.append(("structured", (name, spec)))
         csv2 = two_config_csv(scratch)
         n_two = len(two_config_workers(csv2))
-        two_shards = [("two-serial", csv2)] + [("two-worker", (i, csv2)) for i in range(n_two)]
         seeds = (1, 2) if quick else (1, 2, 3, 4, 12345)
+        two_seeds = (1,) if quick else seeds
+        two_shards = [("two-serial", csv2)] + [("two-serial-seed", (csv2, sd)) for sd in two_seeds] + [("two-worker", (i, csv2)) for i in range(n_two)]
         results = []
         import multiprocessing
 
@@ -393,9 +404,11 @@ def run(ctx):
         with mctx.Pool(min(pool.NPROC, len(shards) + len(seeds))) as p:
             results = p.map(_shard_safe, two_shards + shards + [("hashseed", s) for s in seeds], chunksize=1)
         trees = {0: serial}
-        two_serial, two_union = None, {}
+        two_serial, two_union, two_seeded = None, {}, {}
         for r in results:
-            if r.extra and r.extra[0] == "serial":
+            if r.extra and r.extra[0] == "serial" and r.extra[1] is not None:
+                two_seeded[r.extra[1]] = r.extra[2]
+            elif r.extra and r.extra[0] == "serial":
                 two_serial = r.extra[2]
             elif r.extra and r.extra[0] == "worker":
                 for k, v in r.extra[2].items():
@@ -410,6 +423,10 @@ def run(ctx):
         if two_serial is not None and two_serial != two_union:
             diff = sorted(set(two_serial.items()) ^ set(two_union.items()))[:4]
             total.violation("two-configuration CSV: the serial run differs from the workers run one by one in fresh processes: %r" % (diff,), {"two_config": True})
+        for sd, tr in sorted(two_seeded.items()):
+            if two_serial is not None and tr != two_serial:
+                diff = sorted(set(tr.items()) ^ set(two_serial.items()))[:4]
+                total.violation("two-configuration CSV: PYTHONHASHSEED=%s gives a different output tree than PYTHONHASHSEED=0: %r" % (sd, diff), {"two_config_hashseed": sd})
         for s, tr in sorted(trees.items()):
             if tr is not None and serial is not None and tr != serial:
                 diff = sorted(set(tr.items()) ^ set(serial.items()))[:4]
@@ -427,7 +444,7 @@ def run(ctx):
                 "triples_preemption_bound_2": [[ws[i][0] for i in tr] for tr in triples],
                 "structured_all_worker_schedules": [n for n, _ in structured],
                 "hash_seeds": [0] + list(seeds),
-                "two_configuration_csv": "serial run vs %d workers each run alone (configurations differing only in name and pixel aspect ratio)" % n_two,
+                "two_configuration_csv": "serial run vs %d workers each run alone (cfg_a = sample 'minimal'; cfg_b = other pixel aspect ratio, 9 'default' video-parameter cells, explicit quantisation matrix); the serial run repeated under hash seeds %r" % (n_two, list(two_seeds)),
                 "execution_cap_per_subset": cap,
                 "capped_subsets": total.n["capped_subsets"],
                 "distinct_output_trees": total.ndistinct("trees"),
@@ -471,7 +488,7 @@ def replay_case(case):
                 return ["workers failed / deadlocked under the schedule"]
             got = tree_digest(os.path.join(d, ROOT))
             return [] if got == expect else ["output tree differs from the serial run"]
-        if "structured" in case or "hashseed" in case or "alone" in case or "serial_vs_union" in case or "two_config" in case or "two_config_worker" in case or "two_config_serial" in case:
+        if "structured" in case or "hashseed" in case or "alone" in case or "serial_vs_union" in case or "two_config" in case or "two_config_hashseed" in case or "two_config_worker" in case or "two_config_serial" in case:
             return ["(re-run ./check C24 to reproduce this whole-generator case)"]
         return []
     finally:
